@@ -83,6 +83,9 @@ func init() {
 			for i := 0; i < n; i++ {
 				pfx := fmt.Sprintf("op%d_", i)
 				switch k := uni(t, pfx+"kind", 0, 9); {
+				case i == 0 && pct(t, "first_op_incremental", 35):
+					// the history of a fresh builder starts with an incremental build
+					c.Ops = append(c.Ops, C08Op{Kind: "incr", Rules: genC08Rules(t, pfx, i)})
 				case k <= 1 || i == 0:
 					c.Ops = append(c.Ops, C08Op{Kind: "full", Rules: genC08Rules(t, pfx, i)})
 				case k == 2:
@@ -129,6 +132,9 @@ func init() {
 				var pan string
 				switch op.Kind {
 				case "refull":
+					if lastFullText == "" {
+						continue
+					}
 					changedSinceIncr = true
 					x.Class("identical-full-text-resubmitted")
 					text, tags := lastFullText, lastFullTags
@@ -325,7 +331,11 @@ func init() {
 						return
 					}
 				}
-				ex := rb.IsExist(c08Universe)
+				var ex []bool
+				if _, qpan := guard(func() error { ex = rb.IsExist(c08Universe); return nil }); qpan != "" {
+					x.Violation("panic:isexist", "IsExist after step %d (%s) panicked: %s\nhistory %s", step, op.Kind, truncate(qpan, 200), hist())
+					return
+				}
 				for i, n := range c08Universe {
 					_, ok := model[n]
 					if ex[i] != ok {
